@@ -985,6 +985,7 @@ func runMgr(prop string) func(s *Sim) {
 			earlyStop = 1
 		}
 		var stopDeadline time.Time
+		savedDelayPM := 0
 		stopReturned := func() bool {
 			select {
 			case <-h.runDone:
@@ -1009,6 +1010,10 @@ func runMgr(prop string) func(s *Sim) {
 				return []SimEvent{{Key: "fault stop manager", Do: func() {
 					earlyStop = 2
 					s.Fault("manager-stop-under-load")
+					// bounded liveness is stated for the time after faults have stopped: no scheduler-injected stalls
+					// (each up to 3 s, inside the manager's own request chains) while the bound runs
+					savedDelayPM = s.DelayPM
+					s.DelayPM = 0
 					stopDeadline = time.Now().Add(stopBound)
 					h.m.Stop(nil)
 				}}}
@@ -1022,6 +1027,7 @@ func runMgr(prop string) func(s *Sim) {
 			if earlyStop == 2 {
 				if stopReturned() {
 					earlyStop, mgrStarted = 3, false
+					s.DelayPM = savedDelayPM
 				} else if !time.Now().Before(stopDeadline) {
 					s.Fail("C07", "stop", "Manager.Run did not return within 60 simulated seconds of Manager.Stop (stopped while the workload was running)")
 				}
@@ -1038,6 +1044,7 @@ func runMgr(prop string) func(s *Sim) {
 			s.quiesce()
 			if stopReturned() {
 				earlyStop, mgrStarted = 3, false
+				s.DelayPM = savedDelayPM
 				break
 			}
 			if s.StepOnce(false) {
@@ -1075,6 +1082,7 @@ func runMgr(prop string) func(s *Sim) {
 			return
 		}
 		// stopping the manager stops every client and returns
+		s.DelayPM = 0
 		h.m.Stop(nil)
 		deadline := time.Now().Add(stopBound)
 		stopped := false
